@@ -17,6 +17,7 @@ RULE = ("databases produced by an independent encoder (tools/msienc.py, written 
         "write_stream, summary) and the saved bytes are decoded again by the independent decoder (tools/msidec.py): untouched "
         "content must be preserved.  non-trivial = at least two user tables or a non-default pool layout; distinct = distinct "
         "command lists")
+RULE = RULE + ('  Creation times before 1970 with a fractional second, and in 1601, are among the FILETIME values.')
 ASSUMPTIONS = ["the independent encoder and decoder are trusted as format descriptions (tools/msienc.py, tools/msidec.py, tools/psdec.py)",
                "row order of a foreign table is compared as encoded; catalog rows are compared as sets"]
 SAMPLE = {65001: "é漢\U0001F600", 20127: "az", 1252: "éÿþ€", 932: "あ漢ｱ", 1251: "жЯ", 28592: "łž"}
@@ -62,7 +63,8 @@ def gen_db(rng, j):
         tables[name] = (cols, rows)
     if j % 11 == 3:
         tables["Big"] = ([mk("K", "i16", pk=True), mk("V", ("str", 0), null=True)], [[1, "L" * 70000], [2, "L" * 70000], [3, "z"]])
-    summary = [(2, 30, "T" + txt()), (4, 30, txt()), (15, 3, rng.choice([0, 2, -7])), (12, 64, 131000000000000000 + rng.randint(0, 10**9)),
+    summary = [(2, 30, "T" + txt()), (4, 30, txt()), (15, 3, rng.choice([0, 2, -7])), (12, 64, rng.choice([131000000000000000 + rng.randint(0, 10**9), 116444736000000000 - rng.randint(1, 10**9),
+                                                                                             116444736000000000 - 15000000, rng.randint(1, 10**8)])),
                (7, 30, "x64;1033,1036"), (9, 30, "{12345678-90AB-CDEF-0123-456789ABCDEF}")]
     if j % 4 == 1:
         summary += [(18, 30, "app"), (3, 0, None), (6, 1, None), (19, 16, -3)]
